@@ -5,10 +5,10 @@ CONSTANTS
   SlModes = {TRUE, FALSE}
   Bug = "none"
   Faults = {"none", "f1", "f2"}
-  MaxOps = 6
+  MaxOps = 5
   MaxSess = 3
   MaxReq = 3
-  MaxIdle = 3
+  MaxIdle = 2
   MaxErr = 2
   HsMax = 2
   Retries = 2
